@@ -104,12 +104,11 @@ func registerIntercepts(ex *Explorer) {
 		c := fr.i.ctx
 		id := args[0].(string)
 		t := termOf(args[1])
-		if old, ok := c.known[id]; ok {
-			c.known[id] = Or(old, t)
-		} else {
-			c.known[id] = t
+		// the predicate is *set* (scoped use: Known(id,true); Assert(..); Known(id,false))
+		if _, ok := c.known[id]; !ok {
 			c.knownOrder = append(c.knownOrder, id)
 		}
+		c.known[id] = t
 		return nil
 	})
 	ex.register(zz+"Event", func(fr *frame, args []value) value {
